@@ -14,6 +14,8 @@
 //                                 A one actor builds the DAG and waits with ActivitySet::wait_any()
 //                                 W one actor, then Activity::wait() on each activity in the order given by 'waitorder'
 //                                 T one actor, then polls Activity::test() on every activity each 0.25 s
+//                                 P one builder actor + one waiter actor per activity calling ActivityPtr::wait() ('waiters' op, and at E)
+//                                 Q same with the concrete class' wait() (CommPtr::wait() ...)
 //   <op> ...                see exec_op() below; '@<k> <op>' = executed by helper actor k (actor modes), concurrently with the driver
 //   E                       end of the scenario: run it to completion
 // Records (one per line, in execution order):
@@ -28,9 +30,11 @@
 //   G <id> <kind> <state> <parts> <remaining> | <deps...> | <succs...>     structure of a loaded DAG (after 'load'); parts = resources
 //                                   already set: h (host/disk), s, d (source, destination of a Comm), - none
 //   F <id> <state> <ndeps> <nsuccs> <assigned> <get_start_time> <get_finish_time>   final state of each activity
+//   L <clock> <id>                  livelock: <id> was vetoed 100000 times in a row at the same date; the process exits
 //   Z <name> <clock>
 #include <simgrid/s4u.hpp>
 #include <cstdio>
+#include <unistd.h>
 #include <iostream>
 #include <map>
 #include <sstream>
@@ -45,6 +49,7 @@ struct Act {
   std::vector<std::string> on_done; // ops executed in its on_this_completion callback
   std::vector<std::string> on_veto; // ops executed in its on_this_veto callback once dependencies are solved (assignment at veto)
   bool veto_fired = false;
+  bool has_waiter = false;
 };
 
 static std::map<std::string, Act> acts;
@@ -150,6 +155,25 @@ template <class T> static void hook(T* t)
     }
   });
   t->on_this_veto_cb([](T& x) {
+    // livelock detector: the same activity vetoed again and again at the same date with no other veto in between (each legitimate
+    // veto needs an operation of the program or a completion: a finite number per date)
+    static const sg4::Activity* last = nullptr;
+    static double last_clock         = -1;
+    static unsigned long run         = 0;
+    if (last == &x && last_clock == now())
+      run++;
+    else {
+      last       = &x;
+      last_clock = now();
+      run        = 1;
+    }
+    if (run > 100000) {
+      printf("L %.17g %s\n", now(), idof(x));
+      fflush(stdout);
+      _exit(0);
+    }
+    if (run > 3)
+      return;
     printf("v %.17g %s %d %d\n", now(), idof(x), x.dependencies_solved() ? 1 : 0, x.is_assigned() ? 1 : 0);
     auto it = ids.find(&x);
     if (it != ids.end() && x.dependencies_solved() && not x.is_assigned() && not acts[it->second].veto_fired &&
@@ -159,6 +183,38 @@ template <class T> static void hook(T* t)
       for (auto const& op : ops)
         exec_op(op);
     }
+  });
+}
+
+// wait() starts an INITED activity itself: do it beforehand through a guarded operation, so that this implicit start never races with
+// an operation of another actor on the same activity (Exec/Io::do_start issue a simcall: the activity stays STARTING meanwhile)
+static void start_before_wait(const std::string& id)
+{
+  sg4::ActivityPtr a = acts[id].a;
+  while (a->get_state() == sg4::Activity::State::INITED) {
+    exec_op("start " + id);
+    if (a->get_state() == sg4::Activity::State::INITED)
+      sg4::this_actor::yield();
+  }
+}
+
+static void spawn_waiter(const std::string& id)
+{
+  // modes P and Q: one waiter actor per activity, blocked in wait() from the creation of the activity on.
+  // P waits through the base class (ActivityPtr::wait), Q through the concrete class (CommPtr::wait for a Comm).
+  sg4::ActivityPtr a = acts[id].a;
+  char kind          = acts[id].kind;
+  bool typed         = mode == 'Q';
+  hosts[0]->add_actor("w-" + id, [a, kind, typed, id]() {
+    start_before_wait(id);
+    if (typed && kind == 'C')
+      static_cast<sg4::Comm*>(a.get())->wait();
+    else if (typed && kind == 'E')
+      static_cast<sg4::Exec*>(a.get())->wait();
+    else if (typed && kind == 'I')
+      static_cast<sg4::Io*>(a.get())->wait();
+    else
+      a->wait();
   });
 }
 
@@ -277,6 +333,15 @@ static void exec_op(const std::string& line)
     printf("R %ld\n", who());
     return;
   }
+  if (op == "waiters") { // modes P/Q: spawn the waiter actors of every activity created so far that has none yet
+    printf("Q %ld %.17g %s\nR %ld\n", who(), now(), line.c_str(), who());
+    for (auto const& id : order)
+      if (not acts[id].has_waiter) {
+        acts[id].has_waiter = true;
+        spawn_waiter(id);
+      }
+    return;
+  }
   if (not acts.count(x))
     return skip("unknown", line);
   Act& A = acts[x];
@@ -384,18 +449,41 @@ static void drive(const std::vector<std::string>& ops, const std::vector<std::st
       set.wait_any();
   } else if (mode == 'W') {
     for (auto const& id : waitorder.empty() ? order : waitorder)
-      if (acts.count(id) && not terminal(*acts[id].a))
+      if (acts.count(id) && not terminal(*acts[id].a)) {
+        start_before_wait(id);
         acts[id].a->wait();
+      }
+  } else if (mode == 'P' || mode == 'Q') {
+    exec_op("waiters");
+    // the builder stays alive (the activities of an exiting actor are canceled) until the waiters have seen everything complete
+    bool left = true;
+    while (left && now() < base + 1000) {
+      left = false;
+      for (auto const& id : order)
+        left = left || not terminal(*acts[id].a);
+      if (left)
+        sg4::this_actor::sleep_for(0.25);
+    }
+    if (left)
+      sg4::Semaphore::create(0)->acquire(); // never exit with pending activities (they would be canceled): block for ever and let
+                                            // the engine report the deadlock
   } else if (mode == 'T') {
     bool left = true;
     while (left && now() < base + 1000) { // bounded: an activity that never starts must not make the polling loop endless
       left = false;
-      for (auto const& id : order)
-        if (not terminal(*acts[id].a) && not acts[id].a->test())
+      for (auto const& id : order) {
+        if (terminal(*acts[id].a))
+          continue;
+        Busy guard({id}, who()); // test() calls start() on a not yet started activity: not while another actor operates on it
+        if (not guard.ok || not acts[id].a->test())
           left = true;
+      }
       if (left)
         sg4::this_actor::sleep_for(0.25);
     }
+    if (left)
+      sg4::Semaphore::create(0)->acquire(); // never exit with pending activities (they would be canceled): block for ever and let
+                                            // the engine report the deadlock
   }
 }
 
